@@ -198,6 +198,7 @@ def facts():
         if not mine:
             raise ParseFailure("no write-back site of class %s found" % cls)
         f["wb_" + cls] = all(s_["written_back"] for s_ in mine)
+    f.update(de_row_facts())
     return f
 
 
@@ -216,7 +217,8 @@ def emit(f):
               "entries_send_needs_views_send", "parview_ref_needs_sync", "parview_mut_needs_send", "parviews_need_send",
               "world_entry_query_borrows_receiver", "entries_entry_query_borrows_receiver", "world_query_borrows_receiver",
               "view_resources_borrows_receiver", "get_mut_borrows_receiver",
-              "wb_push", "wb_buffer_push", "wb_extend", "wb_reserve", "wb_shrink", "wb_other"]:
+              "wb_push", "wb_buffer_push", "wb_extend", "wb_reserve", "wb_shrink", "wb_other",
+              "de_row_pops", "de_row_complete_flag"]:
         o.append("Definition fact_%s : bool := %s." % (k, b(f[k])))
     o.append("Definition world_literal_sites : list string := [%s]." % "; ".join('"%s"' % s for s in f["literal_sites"]))
     o.append("Definition batch_literal_sites : list string := [%s]." % "; ".join('"%s"' % s for s in f["batch_literal_sites"]))
@@ -307,6 +309,38 @@ def writeback_sites():
                 cls = next((c for (suf, fn_), c in WB_CLASS.items() if rel.endswith(suf) and fn_ == name), "other")
                 sites.append({"file": rel, "fn": name, "var": v, "from": src_x, "calls": sorted(set(grow)), "written_back": wb, "class": cls})
     return sites
+
+
+# ---------------------------------------------------------------------------------------------
+# Row-wise deserialization cleanup facts (C11/C04, finding F9): what happens to the values
+# already stored for a row that is not counted by the caller.
+
+def de_row_facts():
+    f = {}
+    src = read("src/registry/serde/de/sealed.rs")
+    bodies = [norm(b) for q, n, b in fn_bodies(src) if n == "deserialize_components_by_row"]
+    pushing = [b for b in bodies if ".push(" in b]
+    if len(pushing) != 1:
+        raise ParseFailure("deserialize_components_by_row: expected one pushing impl, found %d" % len(pushing))
+    b = pushing[0]
+    m = re.search(r"letresult=unsafe\{R::deserialize_components_by_row\((\w+),", b)
+    ok = False
+    if m:
+        rest_var = m.group(1)
+        tail = b[m.end():]
+        pm = re.search(r"ifresult\.is_err\(\)\{ifletSome\((\w+)\)=(\w+)\{(.*?)\}\}result\}?$", tail)
+        if pm:
+            col, holder, inner = pm.group(1), pm.group(2), pm.group(3)
+            ok = (re.search(r"Vec::<C>::from_raw_parts\(%s\.0\.cast::<C>\(\),length\+1,%s\.1,?\)" % (col, col), inner) is not None
+                  and re.search(r"drop\(v\.pop\(\)\);?$", inner) is not None
+                  and re.search(r"component_column\.0=v\.as_mut_ptr\(\)\.cast::<u8>\(\);component_column\.1=v\.capacity\(\);%s=Some\(component_column\);%s=rest;" % (holder, rest_var), b) is not None)
+    f["de_row_pops"] = ok
+    n2 = norm(read("src/archetype/impl_serde.rs"))
+    sets = re.search(r"R::deserialize_components_by_row\(self\.0\.components,self\.0\.length,&mutseq,self\.0\.identifier\.iter\(\),0,self\.0\.identifier,?\)\}\?;\*self\.0\.complete=true;Ok\(\(\)\)", n2) is not None
+    wired = re.search(r"entity_identifiers,components,length,complete,?\}", n2) is not None
+    loop = re.search(r"foriin0\.\.self\.0\.length\{letmutrow_complete=false;letresult=seq\.next_element_seed\(unsafe\{DeserializeRow::new\(self\.0\.identifier\.as_ref\(\),&mutentity_identifiers,&mutcomponents,vec_length,&mutrow_complete,?\)\},?\);ifletErr\(error\)=result\{ifrow_complete\{vec_length\+=1;\}", n2) is not None
+    f["de_row_complete_flag"] = sets and wired and loop
+    return f
 
 
 if __name__ == "__main__":
